@@ -180,6 +180,20 @@ pub const SCOPE_STATEMENTS: &[&str] = &[
     "if a then E1(1) end",
     "a = a or 5",
     "local a = function() return b end b = 7 E1(a())",
+    "for _, a in ipairs({a}) do #B end",
+    "for a, b in next, {a, b} do #B end",
+    "for a = a or 1, 2 do #B end",
+    "for b = 1, a or 1 do #B end",
+    "local function a(a) return a end E1(a(3))",
+    "local function f(a, b) return function(a) return a, b end end E1(f(1, 2)(3))",
+    "local a, b = b, a",
+    "a, b = b, a",
+    "local b = (function(a) return a end)(a)",
+    "while a do local a = nil #B break end",
+    "if a then local a = 5 #B elseif b then local b = 6 E1(b) end",
+    "repeat local b = a #B until b or true",
+    "do local a = a #B end",
+    "local t = {a = a, b = function(a) return a end} E1(t.a, t.b(2))",
 ];
 
 /// all sequences of `n` statements; nested bodies (`#B`) draw from sequences of length `n-1` (or a single E1(a) at depth 0)
@@ -305,6 +319,18 @@ pub fn family_programs() -> Vec<String> {
     ];
     for l in loops {
         out.push(format!("{}{}\n", PRELUDE, l));
+    }
+    // unused declarations whose values mix effectful non-calls, calls and pure values: evaluation order must survive
+    let vals = ["{EI(1)}", "EI(2)", "m.k", "t[EI(3)]", "x", "EI(4) + 1", "(EI(5))", "-m", "nil", "function() EI(6) end", "..."];
+    for a in vals {
+        out.push(format!("{}local u1 = {}\nreturn 1\n", PRELUDE, a));
+        for b in vals {
+            out.push(format!("{}local u1, u2 = {}, {}\nreturn 1\n", PRELUDE, a, b));
+            out.push(format!("{}local u1 = {}, {}\nreturn 1\n", PRELUDE, a, b));
+            for c in vals {
+                out.push(format!("{}local u1, u2, u3 = {}, {}, {}\nreturn 1\n", PRELUDE, a, b, c));
+            }
+        }
     }
     out
 }
